@@ -49,7 +49,7 @@ def gen_cells(tier, seed, with_stride=False):
         "bias": ["auto", "mean", "scalar", True, False],
         "pad": ["none", "SAME", "VALID", "explicit"],
         "rdil": [1, 2],
-        "ldil": ["off", "M3", "M2"],
+        "ldil": ["off", "M3", "M2", "M3n"],   # M3n: image dilation 2 with a NAMED padding (none / SAME / VALID), 3x3 filters
         "torus": ["all", "none", "mixed"],
         "G": ["B", "rot", "C2"],
         "xorder": [0, 1],
@@ -67,8 +67,10 @@ def gen_cells(tier, seed, with_stride=False):
         c = dict(c)
         c["D"] = 2
         c.setdefault("stride", 1)
-        if c["ldil"] != "off":
-            c["pad"] = "explicit"  # image dilation asks for literal padding
+        if c["ldil"] in ("M3", "M2"):
+            c["pad"] = "explicit"  # literal padding, as the code recommends with image dilation
+            c["rdil"] = 1
+        if c["ldil"] == "M3n":
             c["rdil"] = 1
         if c["ldil"] == "M2" and c["G"] != "B":
             c["G"] = "B"
@@ -120,7 +122,7 @@ def build(cfg):
     rdil = (cfg["rdil"],) * D
     ldil = None if cfg["ldil"] == "off" else (2,) * D
     pad = {"none": None, "SAME": "SAME", "VALID": "VALID", "explicit": ((1, 1),) * D}[cfg["pad"]]
-    if cfg["ldil"] == "M3":
+    if cfg["ldil"] == "M3" or (cfg["ldil"] == "M3n" and cfg["pad"] == "explicit"):
         pad = ((2, 2),) * D
     if cfg["ldil"] == "M2":
         pad = ((1, 1),) * D
